@@ -160,6 +160,18 @@ def judge(r, label, fn, x, inside, cls, meta_, magcls):
             o, l = out
             if not (torch.isfinite(o).all() and torch.isfinite(l).all()):
                 r.viol("nonfinite", "%s returns non-finite numbers for an in-domain input" % label, **det)
+            elif x.is_floating_point():
+                # the same in-domain values as a caller may hold them: a leaf that requires grad, autograd recording on -
+                # acceptance must not depend on being allowed to write into the argument
+                for form, xv in (("requires_grad leaf", x.clone().requires_grad_(True)),):
+                    try:
+                        fn(xv)
+                        r.count("accepted_argument_forms")
+                    except InputOutsideDomain:
+                        r.viol("rejected_in_domain", "%s rejects an in-domain input" % label, argument_form=form, **det)
+                    except Exception as e:
+                        r.viol("wrong_exception", "%s raises a non-domain exception on an in-domain input" % label, argument_form=form,
+                               exc=repr(e)[:200], exc_type=type(e).__name__, **det)
     else:
         r.count("rejected_probes")
         if raised is None:
